@@ -15,7 +15,7 @@ What is modelled (mesa/discrete_space/cell.py, cell_agent.py, discrete_space.py,
   (`type(cell)`, carrier of the property descriptors, `Model/Copy.lean`) — are created with the pair and copied with it; they
   share its identity (`rnd`, `klass` of a cell point to the pair);
 * `Agent._ids` — the class-level per-model id counter, keyed by the model *object*, **not** copied;
-* `HasCell.cell = c` as repaired: the new cell's refusal (`Cell.add_agent`: `capacity and n >= capacity`) comes before
+* `HasCell.cell = c` as repaired: the new cell's refusal (`Cell.add_agent`: `capacity is not None and n >= capacity`) comes before
   anything changes; then the agent leaves the old cell's list (`list.remove`: first occurrence) and enters the new one at
   the end; re-entering the current cell moves the agent to the end of its list.  `cell = None`, `CellAgent.remove()`
   (deregister + `cell = None`; the program then forgets the agent);
@@ -68,10 +68,11 @@ def init : World :=
 
 def upd {β} (f : Nat → Option β) (k : Nat) (v : β) : Nat → Option β := fun i => if i = k then some v else f i
 
-/-- the refusal of `Cell.add_agent`: `if self.capacity and n >= self.capacity` (capacity 0 is falsy: no limit) -/
+/-- the refusal of `Cell.add_agent` (after the repair SC3): `if self.capacity is not None and n >= self.capacity`
+    (a capacity of 0 is a capacity: such a cell refuses every agent) -/
 def capFull (cap : Option Nat) (n : Nat) : Bool :=
   match cap with
-  | some k => k != 0 && k ≤ n
+  | some k => decide (k ≤ n)
   | none => false
 
 def full (cr : CellRec) : Bool := capFull cr.cap cr.agents.length
